@@ -182,6 +182,66 @@ def k6_pipeline_order(ai: List[int], di: List[int]) -> bool:
     return rx.extract(list(ex) + [ex[0]], **kw) == base and rx.extract(list(ex), **kw) == base
 
 
+SAMPLED_ALPHABET = 'a-_'
+XL_MENU = [None, '-', '_-']
+
+
+def _text(idx, alphabet):
+    out = ''
+    for i in idx:
+        for k in range(len(alphabet)):
+            if i == k:
+                out += alphabet[k]
+                break
+    return out
+
+
+def k6_sampled_order(i1: List[int], i2: List[int], i3: List[int], xl: int, picks: List[int], da: int) -> bool:
+    """
+    pre: len(i1) <= 2 and len(i2) <= P['len2'] and len(i3) <= P['len3']
+    pre: all(0 <= i < len(SAMPLED_ALPHABET) for i in i1 + i2 + i3)
+    pre: xl == P['xl'] and len(picks) <= 1 and all(0 <= p < 3 for p in picks) and da == P['da']
+    post: __return__
+    """
+    # a Size that forces extraction to start from a sample: with a seed, the result may depend on the seed but
+    # not on the order in which the same examples were supplied
+    ex = [_text(i1, SAMPLED_ALPHABET), _text(i2, SAMPLED_ALPHABET), _text(i3, SAMPLED_ALPHABET)]
+    extra = None
+    for k in range(len(XL_MENU)):
+        if xl == k:
+            extra = XL_MENU[k]
+    da = 2 if da == 2 else 1
+    saved = rx.ilist, rx.random
+    rx.ilist = rexpy_common.plain_ilist
+
+    def run(examples):
+        # a seeded generator: the same seed gives the same index choices for populations of the same size,
+        # whatever the strings are - one FakeRandom per call, each replaying the same (arbitrary) picks
+        rx.random = FakeRandom(list(picks))
+        return rx.extract(examples, size=Size(do_all=da, do_all_exceptions=1, n_per_length=1), seed=1,
+                          extra_letters=extra)
+    try:
+        base = run(list(ex))
+        for perm in ((0, 2, 1), (1, 0, 2), (2, 1, 0), (1, 2, 0)):
+            if run([ex[i] for i in perm]) != base:
+                return False
+    finally:
+        rx.ilist, rx.random = saved
+    return True
+
+
+def lift_k6_sampled(i1, i2, i3, xl, picks, da):
+    """public API, real generator: some seed must show the same order dependence"""
+    ex = [_text(i1, SAMPLED_ALPHABET), _text(i2, SAMPLED_ALPHABET), _text(i3, SAMPLED_ALPHABET)]
+    for seed in range(10):
+        kw = dict(size=Size(do_all=da, do_all_exceptions=1, n_per_length=1), seed=seed, extra_letters=XL_MENU[xl])
+        base = rx.extract(list(ex), **kw)
+        for perm in ((0, 2, 1), (1, 0, 2), (2, 1, 0), (1, 2, 0)):
+            if rx.extract([ex[i] for i in perm], **kw) != base:
+                return False
+    return True
+
+
 # ---- K5: memo transparency ---------------------------------------------------------------------------
 MEMO_MENU = ['^a+$', '^[0-9]{2}$', '^\\s*x$']
 
@@ -229,6 +289,18 @@ def _obs():
                       'Size.max_strings_in_group=%d (so that the per-fragment string cap is inside the bound); '
                       'variableLengthFrags=%s' % (cap, vlf), param={'cap': cap, 'vlf': vlf, 'nd': 2 if tier == 'quick' else 3},
                       timeout=600 if tier == 'quick' else 3000, tier=tier))
+    for xl, da, len2, len3, tier in ((2, 1, 1, 0, 'quick'), (0, 1, 1, 0, 'quick'), (2, 2, 1, 0, 'thorough'),
+                                     (1, 1, 2, 0, 'thorough'), (2, 1, 1, 1, 'thorough')):
+        obs.append(Ob('K6', 'k6_sampled_order', 'end to end when extraction starts from a sample (forced by a tiny '
+                      'Size) and a seed is given: every ordering of the same examples gives the same list',
+                      '3 strings of lengths <=2, <=%d, <=%d over the alphabet %r (symbolic index per position); '
+                      'extra_letters %r; <=1 symbolic sample pick replayed identically for every ordering (a seeded '
+                      'generator); Size(do_all %d, do_all_exceptions 1, n_per_length 1); 5 orderings'
+                      % (len2, len3, SAMPLED_ALPHABET, XL_MENU[xl], da),
+                      param={'len2': len2, 'len3': len3, 'xl': xl, 'da': da},
+                      timeout=900 if tier == 'quick' else 3000, tier=tier, lift='lift_k6_sampled',
+                      stubs=['random -> FakeRandom replaying the same picks on every call',
+                             'rexpy.ilist -> plain list (CrossHair cannot extend an array from a generator)']))
     obs.append(Ob('K5', 'k5_memo', 'cre(p) returns a pattern object for exactly p with RE_FLAGS, whatever was '
                   'compiled before (shared memo)', 'any sequence of <=4 calls over 3 patterns', timeout=120))
     return obs
